@@ -123,7 +123,7 @@ Qed.
       the conversion to element kind K returns the reference exactly when the id IS of kind K
       and panics otherwise.  So an identifier never decodes as another kind through them.
       (Before fix 8da90bd in /repo the guard was a subset test and relation ids converted to
-      nodes and ways: C10_old_subset_guard_refuted records the witness.) *)
+      nodes and ways: C10_old_guard_witness records the witness.) *)
 Theorem C10_conv_feature : forall K k r v,
   is_element K = true -> in_range r v ->
   conv_feature K (pack k r v) = if kind_eqb K k then Some r else None.
@@ -144,11 +144,11 @@ Proof.
   - exact (conv_element_id K k r v HK Hk H).
 Qed.
 
-Theorem C10_old_subset_guard_refuted :
+Theorem C10_old_guard_witness :
   exists r, old_guard_passes c_nodeMask (pack KRelation r 0) = true
             /\ old_guard_passes c_wayMask (pack KRelation r 0) = true
             /\ ObjectID_Ref (pack KRelation r 0) = r.
-Proof. exact old_subset_guard_refuted. Qed.
+Proof. exact old_guard_witness. Qed.
 
 (* 9. Type.objectID / Type.FeatureID on ARBITRARY type strings, ids of way nodes and members *)
 Theorem C10_type_objectID : forall t r v,
@@ -333,6 +333,28 @@ Example C10_parse_complete_witness :
   shapeb 0 "bounds/5:7" = true /\ parse_object_id "bounds/5:7" = Some (pack KBounds 0 0).
 Proof. vm_compute. repeat split. Qed.
 
+(* 7b. rejection, stated with the text-level shape predicate (independent of the parser's own
+       stages): no shape, no id *)
+Theorem C10_no_shape_no_id : forall s,
+  (shapeb 0 s = false -> parse_object_id s = None) /\
+  (shapeb 1 s = false -> parse_element_id s = None) /\
+  (shapeb 2 s = false -> parse_feature_id s = None).
+Proof.
+  intros s. repeat split; intros H.
+  - rewrite parse_object_id_char, H. reflexivity.
+  - rewrite parse_element_id_char, H. reflexivity.
+  - rewrite parse_feature_id_char, H. reflexivity.
+Qed.
+
+(* 5b. the sort clause composed with the generated constructors: whatever sorted permutation
+       of the element ids of a list of elements a sort returns, it is the list of packed ids of
+       a permutation of the elements that is ordered by (type, id, version) *)
+Theorem C10_sorted_element_ids : forall l out,
+  Forall in_range3 l -> Forall (fun t => is_element (fst (fst t)) = true) l ->
+  Permutation (elements_element_ids l) out -> StronglySorted Z.le out ->
+  exists l', Permutation l l' /\ out = map pack3 l' /\ StronglySorted lex_le l'.
+Proof. exact sorted_element_ids. Qed.
+
 (* non-vacuity: hypotheses are satisfiable by non-trivial values, and the statements compute *)
 Example C10_in_range_witness : in_range 1099511627775 65535 /\ in_range3 (KRelation, 1099511627775, 65535).
 Proof. unfold in_range3, in_range, two40, two16. lia. Qed.
@@ -368,7 +390,7 @@ Definition C10_all_theorems :=
    C10_conv_feature,
    C10_conv_element,
    C10_conv_of_constructors,
-   C10_old_subset_guard_refuted,
+   C10_old_guard_witness,
    C10_type_objectID,
    C10_type_featureID,
    C10_kind_of_name,
@@ -381,6 +403,8 @@ Definition C10_all_theorems :=
    C10_elements_id_lists,
    C10_objects_id_list,
    C10_collection_ids,
+   C10_no_shape_no_id,
+   C10_sorted_element_ids,
    C10_collection_ids_injective,
    C10_any_ref_reads_back_mod_2_40,
    C10_any_ref_clobbers_type_bits,
